@@ -49,15 +49,18 @@ type Contract struct {
 	ResultNames []string
 	Requires    []*Clause
 	Ensures     []*Clause
-	Modifies    []*Clause
-	HasModifies bool
-	Loops       map[int]*LoopSpec
-	CallAsserts []*CallAssert
-	Callback    map[int]*LoopSpec // callback invariants keyed by closure ordinal
-	Ctx         *PkgCtx
-	Where       string
-	NoOverflow  bool
-	Interf      bool // interference fs
+	// LocalEnsures: `A ==> B` where A speaks about parameters/results and B may mention locals; at a return
+	// site where B's locals are not in scope the obligation is "A is false here".
+	LocalEnsures []*Clause
+	Modifies     []*Clause
+	HasModifies  bool
+	Loops        map[int]*LoopSpec
+	CallAsserts  []*CallAssert
+	Callback     map[int]*LoopSpec // callback invariants keyed by closure ordinal
+	Ctx          *PkgCtx
+	Where        string
+	NoOverflow   bool
+	Interf       bool // interference fs
 }
 
 type PureFunc struct {
@@ -231,7 +234,7 @@ func parseSpecExpr(raw string) (ast.Expr, error) {
 // ---------------------------------------------------------------------------------------------
 // Loading
 
-var reLabel = regexp.MustCompile(`^(\w+)\[([^\]]+)\]\s*(.*)$`)
+var reLabel = regexp.MustCompile(`^([\w-]+)\[([^\]]+)\]\s*(.*)$`)
 var reExternHdr = regexp.MustCompile(`^(.*\.(?:[A-Za-z_]\w*|\*))\(([^()]*)\)\s*(?:\(([^()]*)\))?\s*$`)
 var rePureHdr = regexp.MustCompile(`^(\w+)\((.*?)\)\s*([^=]*?)\s*(?:=\s*(.*))?$`)
 
@@ -467,7 +470,7 @@ func (S *Specs) parseLines(lines []rawLine, ctx *PkgCtx, pkgShort string, extern
 			if cur != nil {
 				cur.Interf = true
 			}
-		case "requires", "ensures":
+		case "requires", "ensures", "ensures-local":
 			if cur == nil {
 				fail(l, "%s outside func", word)
 				continue
@@ -478,6 +481,9 @@ func (S *Specs) parseLines(lines []rawLine, ctx *PkgCtx, pkgShort string, extern
 			}
 			if word == "requires" {
 				cur.Requires = append(cur.Requires, c)
+			} else if word == "ensures-local" {
+				c.Kind = "ensures-local"
+				cur.LocalEnsures = append(cur.LocalEnsures, c)
 			} else {
 				cur.Ensures = append(cur.Ensures, c)
 			}
@@ -747,7 +753,7 @@ func resolveTypeExpr(ctx *PkgCtx, e ast.Expr) (types.Type, error) {
 }
 
 var directiveWords = map[string]bool{"import": true, "package": true, "func": true, "extern": true, "props": true, "trusted": true,
-	"pure": true, "ghost": true, "nooverflow": true, "interference": true, "requires": true, "ensures": true, "modifies": true,
+	"pure": true, "ghost": true, "nooverflow": true, "interference": true, "requires": true, "ensures": true, "ensures-local": true, "modifies": true,
 	"loop": true, "callback": true, "at": true, "lemma": true, "global": true}
 
 func startsWithDirective(body string) bool {
